@@ -28,8 +28,10 @@ type Case struct {
 
 // Outcome of the implementation.
 type Outcome struct {
-	Obs int    // 0 accept, 1 reject, 2 panic
-	Msg string // error text (reported to humans only, never compared)
+	Obs      int      // 0 accept, 1 reject, 2 panic
+	Msg      string   // error text (reported to humans only, never compared)
+	DIDCalls []string // what the DID resolver was asked ("<did>?state=<hex>")
+	Nonces   []uint64 // nonces the status resolvers were asked about
 }
 
 // RunImpl calls the public API exactly as a verifier does.
@@ -44,8 +46,11 @@ func RunImpl(c *Case) (out Outcome) {
 		return Outcome{Obs: 1, Msg: "credential does not decode: " + err.Error()}
 	}
 	reg := &verifiable.CredentialStatusResolverRegistry{}
+	var stubs []*StubStatusResolver
 	for _, e := range c.Env.Reg {
-		reg.Register(verifiable.CredentialStatusType(e.Type), &StubStatusResolver{Answer: e.Answer})
+		st := &StubStatusResolver{Answer: e.Answer}
+		stubs = append(stubs, st)
+		reg.Register(verifiable.CredentialStatusType(e.Type), st)
 	}
 	didr := &StubDIDResolver{Script: c.Env.DID}
 	pt := verifiable.Iden3SparseMerkleTreeProofType
@@ -54,10 +59,16 @@ func RunImpl(c *Case) (out Outcome) {
 	}
 	err := vc.VerifyProof(bg, pt, didr, verifiable.WithStatusResolverRegistry(reg),
 		verifiable.VerifWithMerklizeOptions(MerklizeOpts()...))
-	if err != nil {
-		return Outcome{Obs: 1, Msg: err.Error()}
+	out = Outcome{Obs: 0, DIDCalls: didr.Calls}
+	for _, st := range stubs {
+		for _, cs := range st.Seen {
+			out.Nonces = append(out.Nonces, cs.RevocationNonce)
+		}
 	}
-	return Outcome{Obs: 0}
+	if err != nil {
+		out.Obs, out.Msg = 1, err.Error()
+	}
+	return out
 }
 
 // Driver collects cases and writes shards.
@@ -178,6 +189,17 @@ func (d *Driver) finish(c *Case, out Outcome, top Top) (bool, error) {
 	case out.Obs == 1 && spec:
 		d.Rep.Fail(lc+"-rejects-valid",
 			fmt.Sprintf("VerifyProof rejected a bundle satisfying every clause (%s; fault %q): %s", c.Scenario, c.Fault, out.Msg), c)
+	}
+	// an accepted bundle: the resolvers must have been asked about exactly this DID and state,
+	// and (BJJ) about exactly the auth claim's nonce
+	if out.Obs == 0 && top.Typed != nil && top.Typed.DID != nil && top.Typed.State.Value.Kind == 2 {
+		want := top.Typed.DIDStr + "?state=" + HexOf256(top.Typed.State.Value.Z)
+		if len(out.DIDCalls) != 1 || out.DIDCalls[0] != want {
+			d.Rep.Fail(lc+"-resolver-not-asked-about-state", fmt.Sprintf("accepted, but the DID resolver was asked %v instead of [%s] (%s; fault %q)", out.DIDCalls, want, c.Scenario, c.Fault), c)
+		}
+		if d.BJJ && top.Typed.Auth != nil && (len(out.Nonces) != 1 || out.Nonces[0] != top.Typed.Auth.nonce()) {
+			d.Rep.Fail(lc+"-status-not-asked-about-auth-nonce", fmt.Sprintf("accepted, but the status resolver was asked about %v, auth claim nonce %d (%s; fault %q)", out.Nonces, top.Typed.Auth.nonce(), c.Scenario, c.Fault), c)
+		}
 	}
 	// what the fault catalogue says the property demands
 	if c.Expect == "reject" && out.Obs == 0 {
